@@ -18,7 +18,7 @@ const XLS_REGIONS: [Rg; 5] = [((0, 0), (1, 1)), ((0, 25), (1, 26)), ((8, 51), (9
 fn rf(r: Rg) -> String { format!("{}:{}", a1(r.0 .0, r.0 .1), a1(r.1 .0, r.1 .1)) }
 
 #[derive(Clone, Debug)]
-struct TSpec { name: String, sheet: usize, rg: Rg, header: u32, totals: u32, columns: Vec<String>, explicit_counts: bool }
+struct TSpec { name: String, sheet: usize, rg: Rg, header: u32, totals: u32, columns: Vec<String>, explicit_counts: bool, shown: u8 }
 
 struct Case { bytes: Vec<u8>, sheets: Vec<String>, merges: Vec<Vec<Rg>>, tables: Vec<TSpec>, grids: Vec<Grid>, desc: serde_json::Value }
 
@@ -53,7 +53,7 @@ fn build(ch: &mut Chooser, fmt: &str) -> Case {
             let totals = ch.choose("table-totals-rows", 2) as u32;
             let ncols = (rg.1 .1 - rg.0 .1 + 1) as usize;
             let colnames = ["label", "a & b", "<amount>", "d"];
-            tables.push(TSpec { name: ["Table1", "Sales_2"][t].to_string(), sheet, rg, header, totals, columns: colnames[..ncols].iter().map(|s| s.to_string()).collect(), explicit_counts: ch.flag("table-explicit-default-counts") });
+            tables.push(TSpec { name: ["Table1", "Sales_2"][t].to_string(), sheet, rg, header, totals, columns: colnames[..ncols].iter().map(|s| s.to_string()).collect(), explicit_counts: ch.flag("table-explicit-default-counts"), shown: ch.choose("table-totalsRowShown-attribute(absent,1,0)", 3) as u8 });
         }
     }
     let desc = json!({"format": fmt, "sheets": sheets, "merges": merges.iter().map(|m| m.iter().map(|r| rf(*r)).collect::<Vec<_>>()).collect::<Vec<_>>(), "tables": tables.iter().map(|t| format!("{t:?}")).collect::<Vec<_>>()});
@@ -66,7 +66,8 @@ fn build(ch: &mut Chooser, fmt: &str) -> Case {
             for t in tables.iter().filter(|t| t.sheet == i) {
                 sh.tables.push(xlsx::XTable { name: t.name.clone(), display_name: t.name.clone(), rf: rf(t.rg),
                     header_rows: if t.header == 0 { Some(0) } else if t.explicit_counts { Some(1) } else { None },
-                    totals_rows: if t.totals == 1 { Some(1) } else if t.explicit_counts { Some(0) } else { None }, columns: t.columns.clone() });
+                    totals_rows: if t.totals == 1 { Some(1) } else if t.explicit_counts { Some(0) } else { None },
+                    totals_row_shown: match t.shown { 0 => None, 1 => Some(true), _ => Some(false) }, columns: t.columns.clone() });
             }
             b.sheets.push(sh);
         }
